@@ -147,8 +147,10 @@ def pt_ops(ctx):
                 if len(kcanon) in (1, n - 1):
                     # input classes: integer / float32 real data, a transposed (non-contiguous) view of the same operator
                     rre = rho.real.copy()
-                    for tag, arr in (('int64', rre.astype(np.int64)), ('float32', rre.astype(np.float32)), ('view', np.ascontiguousarray(rho.T).T)):
-                        src = rho if tag == 'view' else rre
+                    for tag, arr in (('int64', rre.astype(np.int64)), ('float32', rre.astype(np.float32)), ('view', np.ascontiguousarray(rho.T).T),
+                                     ('tensor-form', rho.reshape(*dims, *dims))):
+                        # 'tensor-form': the docstring's `rho` of shape (*dim, *dim)
+                        src = rho if tag in ('view', 'tensor-form') else rre
                         ops.append(f'C17 pt {ds} {ks} {gint_list(src)}'); VARIANTS[ops[-1]] = kv
                         PT_META[len(ops) - 1] = f'rho={tag} ndarray, dim={dv!r} ({type(dv).__name__}), keep_index={kv!r} ({type(kv).__name__})'
                         impl.append(guarded(lambda arr=arr: gint_list(np.asarray(checked(ctx, 'partial_trace[' + tag + ']', numqi.utils.partial_trace, arr, dv, kv)))))
@@ -227,19 +229,20 @@ def bij_line(Bij, n):
 
 
 def basis_line(B):
+    """every non-zero amplitude of every basis vector: `index:amplitude^2` with the square rationalised as 1/M entry by entry
+    (no digest: support, every value and the sign are compared)"""
     out = []
     for row in B:
-        supp = np.nonzero(row)[0]
-        vals = row[supp]
-        if len(supp) == 0:
-            out.append('=0/1=1'); continue
-        if np.any(vals < 0):
-            return 'negative-amplitude'
-        M = round(1 / float(vals[0]) ** 2)
-        if abs(float(vals[0]) ** 2 * M - 1) > 1e-9:
-            return 'amplitude-not-1/sqrt(int)'
-        uniform = int(bool(np.all(vals == vals[0])))
-        out.append(';'.join(map(str, supp)) + f'={rat_str(Fraction(1, M))}={uniform}')
+        ent = []
+        for x in np.nonzero(row)[0]:
+            v = float(row[x])
+            if v < 0:
+                return 'negative-amplitude'
+            M = round(1 / v ** 2)
+            if abs(v ** 2 * M - 1) > 1e-9:
+                return 'amplitude-not-1/sqrt(int)'
+            ent.append(f'{int(x)}:{rat_str(Fraction(1, M))}')
+        out.append(';'.join(ent))
     return '|'.join(out)
 
 
@@ -350,6 +353,57 @@ def users_ops(ctx):
     D = numqi.dicke
     nrng = np.random.default_rng(ctx.np_seed + 7)
     ops, impl = [], []
+    # (0) PureBosonicExt.__init__: the table stored on the object (index lists, values^2, dtypes) against the model's `bijTable`, the
+    #     size of the parameter manifold against `dimA * dickeNumber`; both distance kinds
+    for dimA, dimB, k in ([(2, 2, 2), (3, 2, 3), (2, 3, 2), (1, 3, 3), (2, 4, 2)] if ctx.quick() else [(a, b, k) for a in (1, 2, 3) for b in (2, 3, 4) for k in (1, 2, 3, 4)]):
+        for kind in ('ree', 'gellmann'):
+            def init_table(kind=kind):
+                m = numqi.entangle.PureBosonicExt(dimA, dimB, k, distance_kind=kind)
+                if any((x[0].dtype, x[1].dtype, x[2].dtype) != (torch.int64, torch.int64, torch.complex128) for x in m.Bij):
+                    return 'table-dtype'
+                if any(float(x[2].imag.abs().max()) != 0 for x in m.Bij if len(x[2])):
+                    return 'table-not-real'
+                return bij_line([(x[0].numpy(), x[1].numpy(), x[2].real.numpy()) for x in m.Bij], k)
+
+            def init_size(kind=kind):
+                m = numqi.entangle.PureBosonicExt(dimA, dimB, k, distance_kind=kind)
+                with torch.no_grad():
+                    sz = int(m.manifold().reshape(-1).shape[0])
+                return str(sz // dimA) if (sz % dimA == 0 and (m.dimA, m.dimB) == (dimA, dimB)) else f'manifold-size:{sz}'
+            ops.append(f'C17 bij {k} {dimB}'); impl.append(guarded(init_table))
+            ops.append(f'C17 number {k} {dimB}'); impl.append(guarded(init_size))
+            ctx.count('pureb-init-' + kind)
+    # (0b) PureBosonicExt.forward with the table built by the MODEL (`bijTable`): the object's index lists are not sent, only integer values
+    #      substituted position by position into its table; reduced matrix and the expectation loss Re tr(op rho_AB) (Gaussian-integer op)
+    for dimA, dimB, k in ([(2, 2, 2), (3, 2, 3), (2, 3, 2), (1, 2, 1)] if ctx.quick() else [(a, b, k) for a in (1, 2, 3) for b in (2, 3) for k in (1, 2, 3)]):
+        L = D.get_dicke_number(k, dimB); N = dimA * dimB
+        v = rand_gint(nrng, (dimA * L,), -5, 5)
+        op = rand_gint(nrng, (N, N), -3, 3)
+        lens = [len(x[0]) for x in D.get_partial_trace_ABk_to_AB_index(k, dimB)]
+        ints = [rand_gint(nrng, (n_,), -4, 4) for n_ in lens]
+
+        def fm():
+            model = numqi.entangle.PureBosonicExt(dimA, dimB, k)
+            if [len(x[0]) for x in model.Bij] != lens:
+                return 'table-length-mismatch'
+            model.Bij = [[x[0], x[1], torch.tensor(w, dtype=torch.complex128)] for x, w in zip(model.Bij, ints)]
+
+            class Stub(torch.nn.Module):
+                def forward(self_):
+                    return torch.tensor(v, dtype=torch.complex128)
+            model.manifold = Stub()
+            op_in = op.copy()
+            model.set_expectation_op(op_in)
+            with torch.no_grad():
+                loss = float(model())
+            if not np.array_equal(op_in, op):
+                return 'mutates-op'
+            if loss != round(loss):
+                return 'nonintegral-loss'
+            return f'{gint_list(model.dm_torch.numpy())}|{int(round(loss))}'
+        ops.append(f'C17 purebm {dimA} {dimB} {k} {"|".join(gint_list(w) or "-" for w in ints)} {gint_list(v)} {gint_list(op)}')
+        impl.append(guarded(fm))
+        ctx.count('pureb-model-table')
     # (1) PureBosonicExt.forward: real object, parameter vector and table values replaced by integers (index lists are the real ones)
     for dimA, dimB, k in ([(2, 2, 2), (3, 2, 3), (2, 3, 2)] if ctx.quick() else [(a, b, k) for a in (1, 2, 3) for b in (2, 3) for k in (1, 2, 3)]):
         L = D.get_dicke_number(k, dimB)
@@ -718,6 +772,32 @@ def probe(ctx):
             ctx.fail('pureb-reduction', f'PureBosonicExt reduced state != explicit reduction for {dimA},{dimB},{k}', rep)
         else:
             ctx.probe_ok(('pureb', dimA, dimB, k))
+        # expectation branch: the loss is Re tr(op rho_AB) for a complex Hermitian op; both distance kinds give the same reduced state
+        try:
+            N = dimA * dimB
+            r2 = np.random.default_rng(ctx.np_seed + 17 + N)
+            H = r2.normal(size=(N, N)) + 1j * r2.normal(size=(N, N)); H = H + H.conj().T
+            H0 = H.copy()
+            model.set_expectation_op(H)
+            with torch.no_grad():
+                loss = float(model())
+                rho_ab = model.dm_torch.numpy()
+            want_loss = float(np.trace(H0 @ rho_ab).real)
+            m2 = numqi.entangle.PureBosonicExt(dimA, dimB, k, distance_kind='gellmann')
+            m2.manifold = model.manifold
+            m2.set_dm_target(np.eye(N) / N)
+            with torch.no_grad():
+                m2()
+            same = close(m2.dm_torch.numpy(), rho_ab, 1e-12)
+        except Exception as e:
+            ctx.fail('pureb-raises', f'{type(e).__name__}: {e}', dict(rep, branch='expectation')); continue
+        if abs(loss - want_loss) > 1e-12 * max(1.0, abs(want_loss)) or not np.array_equal(H, H0):
+            ctx.fail('pureb-expectation', f'PureBosonicExt expectation loss {loss} != Re tr(op rho_AB) = {want_loss} for {dimA},{dimB},{k} (op modified: {not np.array_equal(H, H0)})',
+                     dict(rep, branch='expectation', op_seed=ctx.np_seed + 17 + N))
+        elif not same:
+            ctx.fail('pureb-reduction', f"distance_kind='gellmann' gives a different reduced state than 'ree' for {dimA},{dimB},{k}", dict(rep, branch='gellmann'))
+        else:
+            ctx.probe_ok(('pureb-expectation', dimA, dimB, k))
     ctx.assumptions.append('float probe tolerance 1e-12 (relative to max entry, inputs O(1), sums of at most 1100 products: rounding <= 1100*2.2e-16*O(1) ~ 3e-13)')
 
 
